@@ -89,10 +89,10 @@ func refDecompress(b []byte, c *pwr.CompressionSettings) ([]byte, error) {
 
 // RefFileSeries is one per-file series of a decoded patch.
 type RefFileSeries struct {
-	Header  *pwr.SyncHeader
-	Ops     []*pwr.SyncOp     // rsync series (without the end marker)
-	Bsdiff  *pwr.BsdiffHeader // bsdiff series
-	Ctrl    []*bsdiff.Control // without the Eof control
+	Header *pwr.SyncHeader
+	Ops    []*pwr.SyncOp     // rsync series (without the end marker)
+	Bsdiff *pwr.BsdiffHeader // bsdiff series
+	Ctrl   []*bsdiff.Control // without the Eof control
 }
 
 // RefPatch is an independently decoded patch.
